@@ -153,15 +153,18 @@ def impl_codec(v):
     import xarray as xr
     from xeofs.utils.io import _desanitize_attrs_nc, _sanitize_attrs_nc
     outs = []
-    for site in ("node", "var"):
+    for site in ("node", "var", "coord"):
         da = xr.DataArray(np.arange(3.0), dims="x", name="v", attrs={"k": copy.deepcopy(v)} if site == "var" else {})
+        if site == "coord":
+            da = da.assign_coords(x=xr.DataArray(np.arange(3.0), dims="x", attrs={"k": copy.deepcopy(v)}))
         dt = xr.DataTree(xr.Dataset({"v": da}, attrs={"k": copy.deepcopy(v)} if site == "node" else {}), name="root")
         dt["child"] = xr.DataTree(xr.Dataset({"w": da.rename("w")}, attrs={"k": copy.deepcopy(v)} if site == "node" else {}))
         try:
             dt = _sanitize_attrs_nc(dt)
-            mid = dt["child"].attrs["k"] if site == "node" else dt["child"]["w"].attrs["k"]
+            mid = dt["child"].attrs["k"] if site == "node" else (dt["child"]["w"].attrs["k"] if site == "var" else dt["child"]["x"].attrs["k"])
             dt = _desanitize_attrs_nc(dt)
-            got = [dt.attrs["k"], dt["child"].attrs["k"]] if site == "node" else [dt["v"].attrs["k"], dt["child"]["w"].attrs["k"]]
+            got = [dt.attrs["k"], dt["child"].attrs["k"]] if site == "node" else (
+                [dt["v"].attrs["k"], dt["child"]["w"].attrs["k"]] if site == "var" else [dt["x"].attrs["k"], dt["child"]["x"].attrs["k"]])
             if not strict_eq(got[0], got[1]):
                 outs.append(("sites-disagree", got, mid))
             elif strict_eq(got[0], v):
@@ -303,7 +306,7 @@ USER_ATTRS = {
     "brackets": ({"units": "[m/s]"}, {"units": "[deg]"}),
     "True": ({"flag": "True", "missing": "None"}, {"positive": "False"}),
     "list-like": ({"levels": "[1, 2]"}, {}),
-    "structured": ({"levels": [1, 2], "valid": True, "fill": None}, {}),
+    "structured": ({"levels": [1, 2], "valid": True, "fill": None}, {"bounds": None, "regular": True, "valid_range": [-90, 90]}),
 }
 
 
